@@ -214,6 +214,7 @@ pub fn rebuild_synthetic(desc: &Value) -> Option<Unit> {
         "joins" => Some(joins_unit()),
         "limits" => Some(limits_unit()),
         "dealloc" => Some(dealloc_unit()),
+        "miri" => Some(miri_unit()),
         _ => None,
     }
 }
@@ -339,6 +340,27 @@ world w { import i; export i; }
     u
 }
 
+/// a deliberately tiny unit for the Miri shard of the harness (WIT parsing under
+/// Miri is slow)
+pub fn miri_unit() -> Unit {
+    let s = r#"package v:m;
+interface i {
+  variant v { a(u8), b(u64), c(string), d(f32), e }
+  record r { a: u8, b: u64, c: list<u16>, d: option<f64> }
+  flags fl { a, b, c, d, e, f, g, h, i }
+  m1: func(a: v, b: r) -> result<list<string>, v>;
+  m2: func(a: map<u8, string>, b: list<u8, 2>, c: fl) -> tuple<s16, char, bool>;
+  m3: func(a: u64, b: u64, c: u64, d: u64, e: u64, f: u64, g: u64, h: u64, i: u64, j: u64, k: u64, l: u64, m: u64, n: u64, o: u64, p: u64, q: string) -> string;
+  m4: async func(a: string, b: u32, c: u32, d: u32, e: f32) -> tuple<u32, string>;
+}
+world w { import i; export i; }
+"#;
+    let mut u = Unit::from_wit("synthetic-miri", s).expect("miri unit parses");
+    u.synthetic = Some(json!({"kind": "miri"}));
+    u.wit = None;
+    u
+}
+
 pub fn boundary_units() -> Vec<Unit> {
     let mut out = vec![];
     for (name, wit) in witgen::boundary_corpus() {
@@ -424,6 +446,18 @@ pub fn catch<F: FnOnce() -> R + std::panic::UnwindSafe, R>(f: F) -> Result<R, (S
 /// Map a panic location to `<file>:<enclosing fn>` (never a line number) by
 /// reading the source file.
 pub fn panic_site(loc: &str) -> String {
+    thread_local! {
+        static CACHE: std::cell::RefCell<std::collections::HashMap<String, String>> = std::cell::RefCell::new(Default::default());
+    }
+    if let Some(hit) = CACHE.with(|c| c.borrow().get(loc).cloned()) {
+        return hit;
+    }
+    let out = panic_site_uncached(loc);
+    CACHE.with(|c| c.borrow_mut().insert(loc.to_string(), out.clone()));
+    out
+}
+
+fn panic_site_uncached(loc: &str) -> String {
     let Some((file, line)) = loc.rsplit_once(':') else { return "unknown".into() };
     let line: usize = line.parse().unwrap_or(0);
     let short = file.rsplit('/').next().unwrap_or(file).to_string();
